@@ -461,6 +461,22 @@ def ref_string(A, s):
         raise Outside()  # unknown escape letters
 
 
+def ref_raw(A, s):
+    """r"..." : every character up to the closing quote stands for itself (no escapes)"""
+    if len(s) < 3 or not A.ask(s[0] == C("r")) or not is_one_of(A, s[1], "\"'"):
+        raise Outside()
+    q, out, i = s[1], [], 2
+    while True:
+        if i >= len(s):
+            return ("error",)
+        if A.ask(s[i] == q):
+            if i != len(s) - 1:
+                raise Outside()
+            return ("string", out)
+        out.append(s[i])
+        i += 1
+
+
 def ref_bytes(A, s):
     """b"..." -> list of 8-bit terms | ('error',) ; Outside for shapes the statement does not cover"""
     if len(s) < 3 or not A.ask(s[0] == C("b")) or not is_one_of(A, s[1], "\"'"):
@@ -549,7 +565,7 @@ def check_token(kind):
 
         def ref(A):
             try:
-                return ref_number(A, s) if kind == "number" else (ref_bytes(A, s) if kind == "bytes" else ref_string(A, s))
+                return ref_number(A, s) if kind == "number" else (ref_bytes(A, s) if kind == "bytes" else (ref_raw(A, s) if kind == "raw" else ref_string(A, s)))
             except Outside:
                 return ("outside",)
         for assumed, exp in run_reference(ex, ref):
@@ -656,6 +672,7 @@ add("tok_string_plain", [("sym", 1, lambda c: z3.Or(c == C('"'), c == C("'"))), 
 add("tok_string_x", ['"\\x', ("sym", 2), '"'], "string", "\\xHH with arbitrary characters in the digit positions")
 add("tok_string_u", ['"\\u', ("sym", 4, ASCII), '"'], "string", "\\uHHHH (surrogates are invalid)")
 add("tok_string_U", ['"\\U', ("sym", 8, lambda c: z3.Or(DIG(c), z3.And(z3.UGE(c, C("a")), z3.ULE(c, C("g"))), z3.And(z3.UGE(c, C("A")), z3.ULE(c, C("G"))))), '"'], "string", "\\UHHHHHHHH (code points beyond 0x10FFFF and surrogates are invalid)")
+add("tok_string_raw", ['r', ("sym", 1, lambda c: z3.Or(c == C('"'), c == C("'"))), ("symlen", 0, 3, lambda c: z3.BoolVal(True))], "raw", "raw strings of 0..=3 arbitrary characters: no escapes")
 add("tok_bytes_plain", ['b"', ("symlen", 0, 2, lambda c: z3.BoolVal(True)), '"'], "bytes", "byte strings of 0..=2 arbitrary characters (UTF-8 encoded) incl. single-character escapes")
 add("tok_bytes_x", ['b"\\x', ("sym", 2, ASCII), '"'], "bytes", "\\xHH in a byte string: the byte HH")
 add("tok_bytes_octal", ['b"\\', ("sym", 3, ASCII), '"'], "bytes", "three-digit octal in a byte string: values above \\377 are rejected")
